@@ -218,7 +218,8 @@ let run_case (id : string) (inp : string list) (obs : string list) : string opti
   let sess k = List.nth (pl_sessions !st) k in
   (* pending entries of session k in canonical order: (tag, pid, prefixes, attrs) *)
   let pending k =
-    let l = List.map (fun ((tag, pid), pfxs) -> (int_of_n pid, attrs_of k tag, tag, pid, List.map int_of_n pfxs)) (pl_pending (sess k)) in
+    (* the prefixes of an entry are a set: the order they were queued in follows the caller's iteration order *)
+    let l = List.map (fun ((tag, pid), pfxs) -> (int_of_n pid, attrs_of k tag, tag, pid, List.sort compare (List.map int_of_n pfxs))) (pl_pending (sess k)) in
     let ps l = "[" ^ String.concat " " (List.map string_of_int l) ^ "]" in
     List.sort (fun (p1, a1, _, _, x1) (p2, a2, _, _, x2) -> compare (p1, a1, ps x1) (p2, a2, ps x2)) l in
   let emit_all k = while pl_inflight (sess k) do step (pl_emit (nat_of_int k)) done in
@@ -236,7 +237,7 @@ let run_case (id : string) (inp : string list) (obs : string list) : string opti
     done in
   let render_msg k ((((kind, tag), pid), pfxs) : ((n * n) * n) * n list) : string =
     match int_of_n kind with
-    | 0 -> Printf.sprintf "A%s!%s!%s" (si pid) (String.concat "." (List.map si pfxs)) (attrs_of k tag)
+    | 0 -> Printf.sprintf "A%s!%s!%s" (si pid) (String.concat "." (List.sort compare (List.map si pfxs))) (attrs_of k tag)
     | 1 -> Printf.sprintf "W%s!%s" (si pid) (String.concat "." (List.map si pfxs))
     | _ -> "E" in
   let session_obs (k : int) (is_up_event : bool) : string * string list =
